@@ -58,7 +58,7 @@ RULE = ("random histories (1-24 ops) of add/addN/remove(wildcards)/set/+=/-=/+ -
         "a further stream calls the Memory API directly (store.add, store.remove(pattern, graph | None), add_graph, remove_graph) "
         "interleaved with Graph calls; after every op len / list(g) / 7 wild-carded shapes / membership per graph and the store API "
         "(store.triples(pattern, None | graph) with the graphs reported per triple, len(store), store.contexts(), store.contexts(t)) "
-        "and Graph.triples_choices (a list of 0-3 terms in one rotating position) "
+        "and Graph.triples_choices (a list of 0-3 terms in one rotating position; and its whole dispatch: no / one / two / three list positions) "
         "are compared with the model (the compiled NESTED-dictionary model; pattern observations = its generator machine run to "
         "exhaustion) and with a set-of-quads + set-of-graph-keys oracle; every real generator is also replayed next() by next() "
         "on the concrete generator machine (statistics gen_exact / gen_diverge). "
@@ -377,6 +377,16 @@ def _obs_plan(case, k):
         a = probe[others[0]] if k % 2 else None
         b = probe[others[1]] if (k // 2) % 2 else None
         plan.append(("tch", k % 3, (si, cs, a, b)))
+        # the whole dispatch of triples_choices: no list at all / two or three lists (ValueError) / one list
+        kinds = [("t", "t", "t"), ("l", "l", "t"), ("t", "l", "l"), ("l", "t", "l"), ("l", "l", "l"), ("t", "t", "l"),
+                 ("l", "t", "t"), ("t", "l", "t")][k % 8]
+        args = []
+        for i, kd in enumerate(kinds):
+            if kd == "l":
+                args.append(["l", [] if (k // 8 + i) % 3 == 0 else [probe[i]] + ([pool[(k + 1) % len(pool)][i]] if (k + i) % 2 else [])])
+            else:
+                args.append(["t", probe[i] if (k // 2 + i) % 2 else None])
+        plan.append(("tchg", (k + 1) % 3, args))
     return plan
 
 
@@ -446,6 +456,8 @@ def _obs_lines(case, k):
             out.append(f"mtri {_w(g)} " + " ".join(_w(v) for v in x))
         elif kind == "ctxs":
             out.append("ctxs " + " ".join(_w(v) for v in x))
+        elif kind == "tchg":
+            out.append(f"tchg {g} " + " ".join(("l:" + ",".join(map(str, v))) if kd == "l" else ("t:" + _w(v)) for kd, v in x))
         elif kind == "tch":
             si, cs, a, b = x
             out.append(f"tch {g} {'spo'[si]} {_w(a)} {_w(b)} " + " ".join(map(str, cs)))
@@ -455,7 +467,8 @@ def _obs_lines(case, k):
 
 
 def model_lines(case):
-    lines = ["reset"]
+    pr = (case["pool"] or [[4, 4, 4]])[0]
+    lines = ["reset", f"binprobe {pr[0]} {pr[1]} {pr[2]}"]
     for k, op in enumerate(case["ops"]):
         lines.append(_mut_line(op))
         lines += _obs_lines(case, k)
@@ -464,7 +477,7 @@ def model_lines(case):
 
 
 def select_model_obs(case, out):
-    return out[1:]
+    return out[2:]
 
 
 # ------------------------------------------------------------------------------------------------ implementation side
@@ -646,7 +659,20 @@ def _apply(w, op, stats):
             viol.append(f"binop: {name} gave {sorted(got)} expected {sorted(want)}")
         if r.store is a.store or r.store is b.store:
             viol.append("binop: result shares the operand's store")
-        return _fmt(got), viol
+        # the NEW graph is a store of its own: look at it through its three indexes and through `in` as well
+        pr = w.probe
+        parts = [_fmt(got)]
+        for pt in ((pr[0], None, None), (None, pr[1], None), (None, None, pr[2])):
+            sub = [_ids(t) for t in r.triples(tuple(_term(v) for v in pt))]
+            parts.append(_fmt(sub))
+            if sorted(sub) != sorted(t for t in want if _matches(pt, t)):
+                viol.append(f"binop-pattern: result of {name} under pattern {pt} gave {sorted(sub)}, the set has "
+                            f"{sorted(t for t in want if _matches(pt, t))}")
+        has = _tt(pr) in r
+        parts.append("1" if has else "0")
+        if has != (pr in want):
+            viol.append(f"binop-contains: ({pr} in result of {name}) is {has}")
+        return " | ".join(parts), viol
     else:
         raise ValueError(op)
     return "ok", viol
@@ -700,6 +726,27 @@ def _observe(w, case, k, obs, viol):
         go = w.objs[g][(k + g) % 2]
         S = w.sets[g]
         try:
+            if kind == "tchg":
+                arg = tuple([TERMS[c] for c in v] if kd == "l" else _term(v) for kd, v in x)
+                nl = sum(kd == "l" for kd, _ in x)
+                try:
+                    got = [_ids(t) for t in go.triples_choices(arg)]
+                    obs.append(_fmt(got))
+                    if nl >= 2:
+                        viol.append(f"choices-dispatch: after op {k} triples_choices with {nl} list positions did not raise ValueError")
+                    elif nl == 1:
+                        si = [kd for kd, _ in x].index("l")
+                        cs = x[si][1]
+                        base = [t for t in S if all(kd == "l" or v is None or t[i] == v for i, (kd, v) in enumerate(x))]
+                        want = sorted(base) if not cs else sorted(t for c in cs for t in base if t[si] == c)
+                        if sorted(got) != want:
+                            viol.append(f"choices: after op {k} graph {g} triples_choices({x}) gave {sorted(got)} expected {want}")
+                    # no list position: the statement is silent (the code yields nothing); compared with the model only
+                except ValueError:
+                    obs.append("ValueError")
+                    if nl < 2:
+                        viol.append(f"choices-dispatch: after op {k} triples_choices({x}) raised ValueError with {nl} list position(s)")
+                continue
             if kind == "tch":
                 si, cs, a, b = x
                 others = [i for i in range(3) if i != si]
@@ -783,6 +830,7 @@ def _iter_admissible(lines, expect):
 
 def run_impl(case):
     w = _World(case["store"])
+    w.probe = tuple((case["pool"] or [[4, 4, 4]])[0])
     obs, viol, stats = [], [], {"ops": len(case["ops"]), "store_" + case["store"]: 1}
     gens = {}      # k -> [generator, g, pattern, history of graph g's content since the generator began | None]
     adm_lines = ["reset"]
